@@ -17,7 +17,7 @@ use std::path::{Path, PathBuf};
 pub static SPEC: PropSpec = PropSpec {
     id: "C14",
     level: "exploration",
-    rule: "projects: the 8 corpus projects; three projects with a package that contains no function (types only, generic types only, a trait only - used statically and through dyn); generated projects with 1-5 library packages (dependency DAGs with diamonds, cross-package structs in signatures, generic functions and enums, traits with impls for local and primitive types, impls of a foreign trait for a local type, 1-3 source files per package); and textual mutations of them (one import dropped from one file of a multi-file package, all imports of a package dropped, a call redirected to a function that does not exist, a return type changed, an impl removed, a definition duplicated in a second file, a package declaration changed) that usually make the project invalid. each is compiled whole and separately under every topological order of its package graph (at most 8): acceptance parity, equal behaviour of the two Go programs (stdout / termination, and the model's expected stdout for unmutated generated projects), check interface == build interface for every package. non-trivial: projects accepted both ways and executed; distinct by source hash",
+    rule: "projects: the 8 corpus projects; three projects with a package that contains no function (types only, generic types only, a trait only - used statically and through dyn); 72 transitive-visibility projects (Main reaches an item of a package that only a dependency of its dependencies imports - impl, field, inherent path, annotation, dot call, enum pattern, static function, value passed through - over 7 assignments of names to the chain, with import controls); generated projects with 1-5 library packages (dependency DAGs with diamonds, cross-package structs in signatures, generic functions and enums, traits with impls for local and primitive types, impls of a foreign trait for a local type, 1-3 source files per package); and textual mutations of them (one import dropped from one file of a multi-file package, all imports of a package dropped, a call redirected to a function that does not exist, a return type changed, an impl removed, a definition duplicated in a second file, a package declaration changed) that usually make the project invalid. each is compiled whole and separately under every topological order of its package graph (at most 8): acceptance parity, equal behaviour of the two Go programs (stdout / termination, and the model's expected stdout for unmutated generated projects), check interface == build interface for every package. non-trivial: projects accepted both ways and executed; distinct by source hash",
     eval_counter: "project_observations",
     assumptions: &["behaviour is compared through gomini; artifacts are written and re-read through the same serde_json path the CLI uses"],
     crash_is_violation: false,
@@ -388,6 +388,69 @@ fn run(ctx: &mut Ctx) {
             });
             let _ = std::fs::remove_dir_all(&root);
             let _ = std::fs::remove_dir_all(&art);
+        }
+    }
+    // visibility through the package graph: Main reaches items of a package it does NOT import (only a dependency of
+    // its dependencies does) in 8 ways, over all assignments of three name sets to the chain (the order in which
+    // packages are checked follows names): whatever the verdict is, both ways of compiling must give the same one
+    {
+        let uses: [(&str, &str); 8] = [
+            ("impl-of-transitive-package", "    let _ = string_println(TP::Show::show(MID::make()));\n"),
+            ("field-of-transitive-type", "    let _ = string_println(int32_to_string(MID::make().x));\n"),
+            ("inherent-path-of-transitive-type", "    let _ = string_println(int32_to_string(DATA::Point::norm(MID::make())));\n"),
+            ("annotation-with-transitive-type", "    let p: DATA::Point = MID::make();\n    let _ = string_println(\"ok\");\n"),
+            ("dot-call-on-transitive-type", "    let _ = string_println(int32_to_string(MID::make().norm()));\n"),
+            ("pattern-of-transitive-enum", "    let _ = string_println(int32_to_string(match MID::kind() { DATA::Kind::A => 1, _ => 2 }));\n"),
+            ("static-function-of-transitive-type", "    let _ = string_println(int32_to_string(DATA::Point::origin().x));\n"),
+            ("value-passed-through", "    let _ = string_println(int32_to_string(MID::sum(MID::make())));\n"),
+        ];
+        let name_sets: [[&str; 3]; 7] = [["Aa", "Mm", "Zz"], ["Aa", "Zz", "Mm"], ["Mm", "Aa", "Zz"], ["Mm", "Zz", "Aa"], ["Zz", "Aa", "Mm"], ["Zz", "Mm", "Aa"], ["Lib", "LibX", "Li"]];
+        let mut k = 0u64;
+        for (uname, utext) in uses.iter() {
+            for ns in name_sets.iter() {
+                for with_import in [false, true] {
+                    k += 1;
+                    if !ctx.mine(60_000 + k) {
+                        continue;
+                    }
+                    // controls (every used package imported) on two of the seven name sets only
+                    if with_import && !(ns[0] == "Aa" && ns[1] == "Mm" || ns[0] == "Zz" && ns[1] == "Mm") {
+                        continue;
+                    }
+                    let (tp, data, mid) = (ns[0], ns[1], ns[2]);
+                    let sub = |t: &str| t.replace("TP", tp).replace("DATA", data).replace("MID", mid);
+                    let files: Vec<(PathBuf, String)> = vec![
+                        (PathBuf::from(format!("{}/lib.gom", tp)), sub("package TP\n\ntrait Show {\n    fn show(Self) -> string;\n}\n")),
+                        (
+                            PathBuf::from(format!("{}/lib.gom", data)),
+                            sub("package DATA\nimport TP\n\nstruct Point { x: int32, y: int32 }\n\nenum Kind { A, B(int32) }\n\nimpl Point {\n    fn norm(self: Point) -> int32 { self.x + self.y }\n    fn origin() -> Point { Point { x: 0, y: 0 } }\n}\n\nimpl TP::Show for Point {\n    fn show(self: Point) -> string { \"Point(\" + int32_to_string(self.x) + \", \" + int32_to_string(self.y) + \")\" }\n}\n"),
+                        ),
+                        (
+                            PathBuf::from(format!("{}/lib.gom", mid)),
+                            sub("package MID\nimport DATA\n\nfn make() -> DATA::Point { DATA::Point { x: 3, y: 4 } }\n\nfn kind() -> DATA::Kind { DATA::Kind::A }\n\nfn sum(p: DATA::Point) -> int32 { p.x + p.y }\n"),
+                        ),
+                        (PathBuf::from("main.gom"), sub(&format!("package Main\nimport MID\nimport TP\n{}\nfn main() {{\n{}    ()\n}}\n", if with_import { "import DATA\n" } else { "" }, utext))),
+                    ];
+                    let root = scratch.join(format!("c14v-{}", k));
+                    let art = scratch.join(format!("c14v-{}-art", k));
+                    let _ = std::fs::remove_dir_all(&root);
+                    let order: Vec<usize> = (0..files.len()).collect();
+                    let label = format!("transitive-visibility/{}/{}-{}-{}/{}", uname, tp, data, mid, if with_import { "imported" } else { "not-imported" });
+                    ctx.case(&label.clone(), |c| {
+                        if projgen::materialize(&root, &files, &order).is_err() {
+                            c.inconclusive("cannot materialise project");
+                            return;
+                        }
+                        observe(c, &label, &root, &art, None, "use of a package that only a dependency imports");
+                        c.count("transitive_visibility_projects", 1);
+                        if k % 16 == 1 {
+                            c.sample(json!({"workload": "transitive visibility", "use": uname, "names": [tp, data, mid]}));
+                        }
+                    });
+                    let _ = std::fs::remove_dir_all(&root);
+                    let _ = std::fs::remove_dir_all(&art);
+                }
+            }
         }
     }
     // generated projects and their mutants
